@@ -205,7 +205,8 @@ class World:
         if op == "new":
             return [self._reg_link(KINDS[k](O(a[0]), O(a[1]), **self.link_kw))]
         if op == "lnew":
-            return [self._reg_link(KINDS[k](vertices=[O(x) for x in a], **self.link_kw))]
+            # the ends as a list, a tuple, a one-shot generator or dict keys, varying with the call
+            return [self._reg_link(KINDS[k](vertices=_as_container([O(x) for x in a], len(a) + self.nl + (a[0] if a else 0)), **self.link_kw))]
         if op == "setv":
             if a[1] == 1:
                 L[a[0]].v1 = O(a[2])
